@@ -230,14 +230,27 @@ fn main() {
         if !o.is_fail() {
             return o;
         }
-        // attribute: does the same case pass with whole-millisecond timestamps?
+        // attribute per signature: a stream that also diverges with whole-millisecond timestamps keeps its
+        // ordinary signature; one that diverges ONLY with sub-millisecond components is the timestamp finding
         let mut whole = c.clone();
         whole.sub_ms_us.clear();
-        if run(&whole, "").is_fail() {
-            return o; // not (only) a sub-millisecond problem: report the ordinary signature
+        let whole_sigs: Vec<String> = run(&whole, "").fail_list().into_iter().map(|x| x.0).collect();
+        let mut fails: Vec<(String, String)> = vec![];
+        let mut only_sub_ms: Vec<String> = vec![];
+        for (sig, detail) in o.fail_list() {
+            if whole_sigs.contains(&sig) {
+                fails.push((sig, detail));
+            } else {
+                only_sub_ms.push(sig);
+            }
         }
-        let detail = format!("passes with whole-millisecond timestamps, fails with sub-millisecond components; first failure: {:?}", o.fail_sig());
-        Outcome::fail("sub-ms-timestamp-lost-in-checkpoint", format!("{}\n{}", c.prog.render(), detail))
+        if !only_sub_ms.is_empty() {
+            fails.push((
+                "sub-ms-timestamp-lost-in-checkpoint".to_string(),
+                format!("{}\npasses with whole-millisecond timestamps, fails with sub-millisecond components: {:?}", c.prog.render(), only_sub_ms),
+            ));
+        }
+        Outcome::fail_many(fails)
     });
     check.finish();
 }
